@@ -181,7 +181,14 @@ def apply_contract_env(ex, info, env, st, node):
         res = S.fresh(info.returns, f"{info.qualname}.result")
     ens = info.clause("ensures")
     if ens is not None:
-        e = eval_clause(ex, info, ens, cs, dict(old, result=res))
+        ghosts = {g: S.fresh(srt, "forall_" + g) for g, srt in getattr(info.cls, "forall", {}).items()}
+        e = eval_clause(ex, info, ens, cs, dict(old, result=res, **ghosts))
+        if ghosts:
+            # universally quantified ghost parameters of the callee's postcondition
+            bound = []
+            for g in ghosts.values():
+                bound.extend(flatten(ex, g, S.sort_of(g)))
+            e = z3.ForAll(bound, e)
         st.assume(z3.Implies(z3.And(*guards), e) if guards else e)
     gl = getattr(info.cls, "ghost_log", None)
     if gl:
@@ -310,6 +317,19 @@ def call_method(ex, base, attr, node, st):
     if isinstance(base, VOpt):
         ex.need(st, z3.Not(base.isnone), "AttributeError", node, f"None.{attr}")
         base = base.val
+    if isinstance(base, VNum) and attr == "limit_denominator":
+        # A-LIB: closest fraction with a bounded denominator -- an uninterpreted rounding (identity is NOT assumed)
+        from .builtins_model import limden
+        from .core import to_real
+        return VNum(limden(to_real(base)), "real")
+    if isinstance(base, VRec) and base.cls in ("Profile", "Ballot"):
+        rel, cname = ("pref_profile.py", "PreferenceProfile") if base.cls == "Profile" else ("ballot.py", "Ballot")
+        info = ex.ctx.registry.lookup(rel, f"{cname}.{attr}")
+        from .core import find_def
+        fnode = find_def(rel, f"{cname}.{attr}")
+        if info is None or fnode is None:
+            raise OutOfReach(f"method {cname}.{attr} has no contract")
+        return apply_contract(ex, info, fnode, [base] + args, kw, st, node)
     if isinstance(base, VDict):
         if attr == "keys" and not args:
             return VSet(base.keys)
